@@ -843,6 +843,7 @@ class _Builder:
     def __init__(self, model: Model, fn: FunctionInfo, owner: "Summariser | None" = None, specialise: bool = True, bind: dict | None = None) -> None:
         self.model = model
         self.fn = fn
+        self.root_fn = fn
         self.owner = owner
         self.specialise = specialise
         self.bind = bind or {}
@@ -974,6 +975,10 @@ class _Builder:
         bound = self._bind(callee, t)
         if bound is None:
             return None
+        if callee.qualname.endswith("#eager"):
+            # what the generator yields now arrives through an intermediate list: rules that follow a value from
+            # its source to where it is used (under which tests it was produced) do not see through that list
+            self.model.__dict__.setdefault("_reads_through_list", {}).setdefault(self.root_fn.qualname, callee.name)
         body = list(callee.node.body)
         if body and isinstance(body[0], ast.Expr) and isinstance(body[0].value, ast.Constant) and isinstance(body[0].value.value, str):
             body = body[1:]
@@ -1286,7 +1291,8 @@ class _Builder:
 
         walk_first(root)
         skip = {id(c) for _, c, _ in firsts}
-        walk(root, True)
+        # the value of an assignment / return / expression statement is read through where it stands
+        walk(root, isinstance(st, (ast.Assign, ast.AnnAssign, ast.AugAssign, ast.Return, ast.Expr)))
         found[:] = [c for c in found if id(c) not in skip]
         if not found and not firsts and not dicts:
             return None
